@@ -41,8 +41,18 @@ Print inventory_changed.
 Definition inventory_missing := Eval vm_compute in
   idx_not_in (fun x => mem_str x sync_inventory) 0 expected_sync_inventory.
 Print inventory_missing.
+Definition flag_sites_changed := Eval vm_compute in
+  idx_not_in (fun x => mem_str x expected_flag_sites) 0 flag_sites.
+Print flag_sites_changed.
+Definition flag_sites_missing := Eval vm_compute in
+  idx_not_in (fun x => mem_str x flag_sites) 0 expected_flag_sites.
+Print flag_sites_missing.
+Definition undisciplined := Eval vm_compute in
+  idx_not_in (fun p => site_ok (N.of_nat (fst p)) (snd p)) 0 (combine (seq 0 (List.length graph)) graph).
+Print undisciplined.
 Definition pins_ok := Eval vm_compute in
-  (if sync_inventory_b then [] else [1]) ++ (if shared_b then [] else [2]) ++ (if shapes_b then [] else [3]).
+  (if sync_inventory_b then [] else [1]) ++ (if shared_b then [] else [2]) ++ (if shapes_b then [] else [3])
+  ++ (if flag_sites_b then [] else [4]) ++ (if lock_discipline_b then [] else [5]).
 Print pins_ok.
 """
 
@@ -160,8 +170,17 @@ class C06(TieCheck):
                        % (inv[k] if k < len(inv) else k))
         if pr.get("inventory_missing"):
             out.append("skeleton: %d pinned synchronisation object(s) no longer exist in the source" % len(pr["inventory_missing"]))
-        if pr.get("pins_ok") and not (pr.get("unexpected_shared") or pr.get("shape_changed") or pr.get("inventory_changed") or pr.get("inventory_missing")):
-            out.append("skeleton: a pinned table of coq/C06/Skeleton.v no longer matches the source (table(s) %s: 1 = sync inventory, 2 = shared fields, 3 = method shapes)" % pr["pins_ok"])
+        fl = cg.get("flag_sites") or []
+        for k in pr.get("flag_sites_changed", []):
+            out.append("skeleton: a mode flag of a shared structure is initialised at a site / with a value that is not pinned "
+                       "(Skeleton.v expected_flag_sites; Txn.write decides who may touch the writer lock): %s" % (fl[k] if k < len(fl) else k))
+        if pr.get("flag_sites_missing"):
+            out.append("skeleton: %d pinned flag initialisation site(s) no longer exist in the source" % len(pr["flag_sites_missing"]))
+        for k in pr.get("undisciplined", []):
+            out.append("lock discipline: %s acquires / releases fox.Router.mu outside txnWith[write] / Txn.Commit|Abort[recv.write]"
+                       % (names[k] if k < len(names) else k))
+        if pr.get("pins_ok") and not (pr.get("flag_sites_changed") or pr.get("flag_sites_missing") or pr.get("undisciplined") or pr.get("unexpected_shared") or pr.get("shape_changed") or pr.get("inventory_changed") or pr.get("inventory_missing")):
+            out.append("skeleton: a pinned table of coq/C06/Skeleton.v no longer matches the source (table(s) %s: 1 = sync inventory, 2 = shared fields, 3 = method shapes, 4 = flag initialisation sites, 5 = lock discipline)" % pr["pins_ok"])
         locks = cg.get("locks", [])
         wl = [locks[i] if i < len(locks) else str(i) for i in pr.get("write_locks", [])]
         rl = [locks[i] if i < len(locks) else str(i) for i in pr.get("read_locks", [])]
